@@ -87,7 +87,13 @@ def run(ids, props=None, tier='quick'):
                 rc, o, e = sh([os.path.join(VERIF, 'check'), prop, '--tier', tier, '--repo', d, '--no-evidence'],
                               cwd=VERIF, timeout=7200)
                 lines = [l for l in o.split('\n') if l.startswith(('VIOLATION', 'UNDECIDED', 'ERROR', 'KNOWN'))]
-                res[prop] = {'exit': rc, 'wall_s': round(time.time() - t, 1),
+                import re as _re
+                names = sorted({m.group(1) + '=' + m.group(2).split('#')[0] for l in lines if l.startswith('VIOLATION')
+                                for m in [_re.search(r'\b(check|obligation)=(\S+)', l)] if m})
+                open_ = sorted({m.group(1).split('#')[0] for l in lines if l.startswith('UNDECIDED')
+                                for m in [_re.search(r'\bobligation=(\S+)', l)] if m})
+                res[prop] = {'exit': rc, 'wall_s': round(time.time() - t, 1), 'caught_by': names, 'undecided': open_,
+                             'reproduced': any(l.startswith('VIOLATION') and 'no-failing-input-found' not in l for l in lines),
                              'lines': [l.replace(d, '<tree>')[:300] for l in lines[:6]], 'stderr': e[-300:] if rc == 3 else ''}
             meta['detection'] = res
             json.dump(meta, open(os.path.join(sd, 'meta.json'), 'w'), indent=1)
